@@ -462,6 +462,7 @@ type Iter struct {
 type Skip struct {
 	Z, R0, Ct0, Hint bool
 	OnlyIter         int // 0: the skips apply to every iteration; k>0: only to iteration k (1-based)
+	ForceReject      int // the first ForceReject iterations are rejected whatever their values (exit "forced"; nothing is computed for them)
 	// StopAt >= 0: emit the signature of iteration StopAt regardless of its checks (only the skipped ones are ignored).
 }
 
@@ -479,7 +480,11 @@ func (k *Key) Sign(msg []byte, skip Skip) *SignResult {
 	mu := shake256(64, k.Tr, msg)
 	rhoPP := shake256(64, k.KeySeed, mu)
 	res := &SignResult{}
-	for kappa := 0; kappa < 1000; kappa++ {
+	for kappa := 0; kappa < 1000+skip.ForceReject; kappa++ {
+		if kappa < skip.ForceReject {
+			res.Path = append(res.Path, Iter{Exit: "forced"})
+			continue
+		}
 		var y [L]Poly
 		for i := 0; i < L; i++ {
 			y[i] = ExpandMask(rhoPP, uint16(L*kappa+i))
